@@ -302,6 +302,9 @@ static PENDING_DEC: Mutex<VecDeque<Arc<Ctl>>> = Mutex::new(VecDeque::new());
 /// number of times a decoder thread passed the `dec.pushed` point (frames pushed to a frame ring)
 pub static DEC_PUSHED: std::sync::atomic::AtomicUsize = std::sync::atomic::AtomicUsize::new(0);
 
+/// number of times a decoder thread found its frame ring full (`dec.wait`)
+pub static DEC_WAITS: std::sync::atomic::AtomicUsize = std::sync::atomic::AtomicUsize::new(0);
+
 /// the next kira decoder thread that reaches a `dec.*` yield point adopts `ctl`
 pub fn expect_decoder_thread(ctl: Arc<Ctl>) {
 	ctl.set_running();
@@ -317,6 +320,9 @@ pub fn install_hook() {
 		if site == "dec.pushed" {
 			DEC_PUSHED.fetch_add(1, std::sync::atomic::Ordering::SeqCst);
 			return;
+		}
+		if site == "dec.wait" {
+			DEC_WAITS.fetch_add(1, std::sync::atomic::Ordering::SeqCst);
 		}
 		unarmed(|| {
 			let ctl = CUR.with(|c| {
